@@ -23,7 +23,8 @@ ASSUMPTIONS = [
     "float modes: generated grammars converge geometrically (Kleene iteration of the totals stabilises within 250 steps at generation time); tolerance 1e-9 + 1e-6 relative ('up to the convergence tolerance')",
     "reference = Kleene iteration from zero on the raw rule list (least fixed point)",
 ]
-MODE_WEIGHTS = [("bool", 2), ("poly", 3), ("maxtimes", 3), ("maxplus", 2), ("float", 5), ("real", 2), ("log", 2)]
+MODE_WEIGHTS = [("bool", 2), ("poly", 3), ("maxtimes", 3), ("maxplus", 2), ("float", 5), ("real", 2), ("log", 2),
+                ("expect", 2)]
 
 
 def generate(rng, tier):
